@@ -96,6 +96,10 @@ def _pure(e):
         return _pure(e.value)
     if isinstance(e, ast.Subscript):
         return _pure(e.value) and _pure(e.slice)
+    if isinstance(e, ast.Call) and isinstance(e.func, ast.Name) and e.func.id == "len" and len(e.args) == 1 and not e.keywords:
+        return _pure(e.args[0])         # len() of a local / attribute has no side effect
+    if isinstance(e, ast.BinOp):
+        return _pure(e.left) and _pure(e.right)
     if isinstance(e, ast.UnaryOp) and isinstance(e.operand, ast.Constant):
         return True
     return False
